@@ -26,7 +26,7 @@ def witness_items(prop):
             continue
         w = f["witness"]
         decls = [to_tuple(d) for d in w["decls"]]
-        out.append((f, engine.Item("w" + f["id"], decls, text=w.get("text"), opts=w.get("opts"))))
+        out.append((f, engine.Item("w" + f["id"], decls, text=w.get("text"), opts=w.get("opts"), c20=bool(w.get("c20")))))
     return out
 
 
@@ -58,7 +58,7 @@ def op_histogram(progs):
 
 
 def run(tier, seed, t0, prop=PROP, n_quick=60, n_thorough=600, opts=None, gen=None, make_items=None,
-        files=None, props_file="Props/C01.v", rule=None, extra_cov=None, pre=None):
+        files=None, props_file="Props/C01.v", rule=None, extra_cov=None, pre=None, witness_extra=None):
     """generic driver: build, replay witnesses, generate items, run the validator, classify, report.
     make_items(seed, n) -> list of engine.Item (default: random scalar programs)"""
     rep = Report(prop, tier, seed, t0)
@@ -91,7 +91,7 @@ def run(tier, seed, t0, prop=PROP, n_quick=60, n_thorough=600, opts=None, gen=No
     cmd, logs = engine.check_items(prop, allitems, seed=seed)
     rep.checker_cmds.append(cmd)
     for f, w in wit:
-        if w.status != "pass":
+        if w.status != "pass" or getattr(w, "c20_ok", None) is False or (witness_extra and witness_extra(w)):
             rep.known_finding(f["id"], f["what"])
     stats = {}
     for it in items:
